@@ -133,6 +133,13 @@ def _fact_atoms(t):
                 if m not in out:
                     out.add(m)
                     work.append(m)
+        elif a.k == "gamma" and a.ty == "int":
+            # a gated integer (max()/min()/conditional expression) is tied to the atoms of its gate and alternatives
+            more = set(_fact_atoms(a.a[0])) | linearize(a.a[1]).atoms() | linearize(a.a[2]).atoms()
+            for m in more:
+                if m not in out and m is not a:
+                    out.add(m)
+                    work.append(m)
     return out
 
 
@@ -195,7 +202,7 @@ def in_loop(r):
     return False
 
 
-def prove(facts, goal, max_cases=None, _lazy=False, _depth=0):
+def prove(facts, goal, max_cases=None, _lazy=False, _depth=0, _fsplit=0):
     """entailment with slice-length axioms and relevance filtering.
     -> ('proved'|'refutable'|'unknown', model-or-reason)"""
     if max_cases is not None:
@@ -203,7 +210,7 @@ def prove(facts, goal, max_cases=None, _lazy=False, _depth=0):
         old = _lin.MAX_CASES
         _lin.MAX_CASES = max_cases
         try:
-            return prove(facts, goal, _lazy=_lazy, _depth=_depth)
+            return prove(facts, goal, _lazy=_lazy, _depth=_depth, _fsplit=_fsplit)
         finally:
             _lin.MAX_CASES = old
     facts = [truthy(f) for f in facts]
@@ -227,7 +234,7 @@ def prove(facts, goal, max_cases=None, _lazy=False, _depth=0):
                     res.append(("proved", None))
                     continue
                 f2 = [f for f in f2 if f.k != "const"]
-                res.append(prove(f2, substitute(goal, m_), _lazy=False, _depth=_depth + 1))
+                res.append(prove(f2, substitute(goal, m_), _lazy=False, _depth=_depth + 1, _fsplit=_fsplit))
             if all(r[0] == "proved" for r in res):
                 return "proved", None
             for r in res:
@@ -244,7 +251,7 @@ def prove(facts, goal, max_cases=None, _lazy=False, _depth=0):
             _IN_SIMPLIFY[0] -= 1
         if g2.k == "const":
             return ("proved", None) if g2.a[0] else ("unknown", "goal simplifies to False")
-        st, m = prove(facts, g2, _lazy=True, _depth=9)
+        st, m = prove(facts, g2, _lazy=True, _depth=9, _fsplit=_fsplit)
         if st == "proved" or not any(_needs_simplify(f) for f in facts):
             return st, m
         _IN_SIMPLIFY[0] += 1
@@ -260,13 +267,41 @@ def prove(facts, goal, max_cases=None, _lazy=False, _depth=0):
                 f2.append(f)
         finally:
             _IN_SIMPLIFY[0] -= 1
-        return prove(f2, g2, _lazy=True, _depth=9)
+        return prove(f2, g2, _lazy=True, _depth=9, _fsplit=_fsplit)
     rel = relevant(facts, goal)
     ax = [slice_axiom(s) for s in _slice_len_atoms(rel + [goal])]
     # axioms may connect further facts
     rel2 = relevant(facts, _conj([goal] + ax) if ax else goal)
     ax = [slice_axiom(s) for s in _slice_len_atoms(rel2 + [goal])]
     st, m = entails(rel2 + ax, goal)
+    if st != "proved" and _fsplit < 3:
+        # an integer gate inside a relevant fact (max()/min()/conditional expression) is an opaque atom for the
+        # linear problem: split on its condition as for a gate in the goal
+        gm = None
+        for f in rel2:
+            for s_ in subterms(f):
+                if s_.k == "gamma" and s_ is not f and s_.ty == "int" and not (s_.a[0].k == "un" and s_.a[0].a[0] == "bool"):
+                    gm = s_
+                    break
+            if gm is not None:
+                break
+        if gm is not None:
+            from .terms import substitute
+            res = []
+            for cond, alt in ((gm.a[0], gm.a[1]), (un("not", gm.a[0]), gm.a[2])):
+                m_ = {gm: alt}
+                f2 = [truthy(substitute(f, m_)) if any(x is gm or x == gm for x in subterms(f)) else f for f in facts] + [truthy(cond)]
+                if any(f.k == "const" and not f.a[0] for f in f2):
+                    res.append(("proved", None))
+                    continue
+                f2 = [f for f in f2 if f.k != "const"]
+                res.append(prove(f2, goal, _lazy=True, _depth=9, _fsplit=_fsplit + 1))
+            if all(r[0] == "proved" for r in res):
+                return "proved", None
+            for r in res:
+                if r[0] == "refutable":
+                    return r
+            return [r for r in res if r[0] != "proved"][0]
     if st == "refutable" and len(rel2) != len(facts):
         # confirm against the full fact set when that is affordable; the dropped facts share no atom
         st2, m2 = entails(facts + ax, goal)
@@ -274,6 +309,28 @@ def prove(facts, goal, max_cases=None, _lazy=False, _depth=0):
             return st2, m2
         if st2 == "refutable":
             m = m2
+        else:
+            # the full set holds literals the linear abstraction cannot express; a model of the expressible ones
+            # still gives the realiser values for the symbols the goal does not mention
+            from .linear import to_dnf, DROPPED, TooManyCases
+            lin = []
+            for f in facts:
+                DROPPED[0] = 0
+                try:
+                    to_dnf(f)
+                except TooManyCases:
+                    continue
+                except Exception:
+                    continue
+                if not DROPPED[0]:
+                    lin.append(f)
+            DROPPED[0] = 0
+            if len(lin) > len(rel2):
+                st3, m3 = entails(lin + ax, goal)
+                if st3 == "proved":
+                    return st3, m3
+                if st3 == "refutable":
+                    m = m3
     if st == "refutable" and any(s_.k == "sym" and isinstance(s_.a[0], str) and s_.a[0].startswith(("loop(", "after(", "elem(", "try(", "pop", "caught"))
                                 for t_ in [goal] + list(rel2) for s_ in subterms(t_)):
         # a summarised loop variable is not an input: no witness can be built from it
